@@ -277,6 +277,11 @@ pub fn run_c18(ctx: &Ctx, sink: &mut Sink) {
         std::fs::create_dir(sc.dir.join("nl\nname")).unwrap();
         std::fs::write(sc.dir.join("nl\nname/y"), b"y").unwrap();
         std::fs::create_dir(sc.dir.join(" sp")).unwrap();
+        // names that are nothing but blanks (a reader of -files0-from must not trim them away)
+        for (d, f) in [("\n", "g"), (" ", "h"), ("\t ", "k")] {
+            std::fs::create_dir(sc.dir.join(d)).unwrap();
+            std::fs::write(sc.dir.join(d).join(f), b"w").unwrap();
+        }
         // names that merely begin like an operator are ordinary operands
         for (d, f) in [("(old)", "g"), ("!keep", "h"), (",", "k")] {
             std::fs::create_dir(sc.dir.join(d)).unwrap();
@@ -284,7 +289,7 @@ pub fn run_c18(ctx: &Ctx, sink: &mut Sink) {
         }
         // observe again: links to ".." see the directories just created
         let mut map: Vec<(Vec<u8>, String)> = sc.roots.iter().map(|(nm, _)| (nm.clone(), observe_root(nm, &sc.dir.join(std::ffi::OsStr::new(std::str::from_utf8(nm).unwrap()))))).collect();
-        for extra in ["-dash", "nl\nname", " sp", ".", "r0/../r1", "-", "(old)", "!keep", ","] {
+        for extra in ["-dash", "nl\nname", " sp", ".", "r0/../r1", "-", "(old)", "!keep", ",", "\n", " ", "\t "] {
             map.push((extra.as_bytes().to_vec(), observe_root(extra.as_bytes(), &sc.dir.join(extra))));
         }
         let wm: Vec<String> = map.iter().map(|(_, w)| w.clone()).collect();
